@@ -41,6 +41,10 @@ CHECKS = {
  'C06': dict(level='exploration', ref='3/C06', technique='2x2 caller/callee matrix (chibicc/gcc, clang as tie-breaker) with unique-id argument leaves and logged receive/return events; stack dirtying; call-site alignment probes (hook), entry alignment checks in gcc callees, callee-saved canaries (asm trampoline), dirty-upper-bits trampolines',
              text='Every signature is exercised in gcc->gcc, clang->clang, chibicc->chibicc, chibicc->gcc and gcc->chibicc; the callee logs every scalar leaf it received, the caller what came back, so a mismatch names the parameter. The grid argument class (23) x GP registers used (0..7) x SSE registers used (0..9) is walked completely with cycling return classes; 3 000 random signatures (by-value structs/unions with bit-fields, long double, up to 12 parameters) and variadic functions are added. Absolute monitors: 16-byte alignment at every emitted call and at every gcc callee entry, rbx/rbp/r12-r15/rsp/DF canaries, narrow values with garbage in the unspecified upper bits.',
              note='gcc == clang trusted as the psABI; features of open findings (struct{long double} return, struct va_arg, x87 live across calls, padding-only eightbyte) only in dedicated probes; struct shapes within a class are sampled'),
+
+ 'C20': dict(level='exploration', ref='3/C20', technique='statement / call-site / function-entry probes emitted by the guarded hook (frame invariant rsp + 8*depth == alloca_bottom, x87 depth vs function entry, x87 CW and MXCSR, 16-byte alignment) executed under repetition counts 1/9/1000/100000, plus value-independence-of-N and gcc as reference; the probed stage-2 compiler as realistic workload',
+             text='Every expression/statement form x result type (scalars, long double, five aggregate shapes, void) is placed in discarding and value-using positions inside loops; the probes assert at every statement boundary that neither the machine stack nor the x87 register stack kept a residue, and the values computed afterwards must not depend on the iteration count. The whole self-compiled compiler built with probes then compiles its own sources and the test corpus (~1.5e8 probe executions per quick run).',
+             note='only statement boundaries are observed; x87 depth is compared with the depth at function entry (caller-held long double across calls is a separate open C06 finding)'),
 }
 REASON_WIP = 'check not built yet in this session (planned, see DESIGN.md section 3); will be claimed once its monitor is silent on the unchanged tree'
 
